@@ -565,6 +565,18 @@ func (ex *Exec) assignLocs(env *SpecEnv, con *Contract) (locs []loc) {
 		n := it.Expr
 		switch n.Kind {
 		case "sel":
+			// package-qualified global variable
+			if n.Args[0].Kind == "ident" {
+				if _, isVar := env.vars[n.Args[0].Name]; !isVar {
+					if pk := ex.pkgByName(n.Args[0].Name); pk != nil {
+						if obj, ok := pk.Scope().Lookup(n.Name).(*types.Var); ok {
+							locs = append(locs, loc{heap: c.heapDecl(globalHeapName(obj), c.sortFor(obj.Type()))})
+							break
+						}
+						specFail("assigns %s: no such package variable", it.Src)
+					}
+				}
+			}
 			x := env.eval(n.Args[0])
 			t := derefType(x.Ty)
 			nm, s := structOf(t)
